@@ -292,6 +292,7 @@ func runC20(c *core.Ctx) error {
 		checkFailureReturns(c, r4, fn)
 	}
 	checkMainExit(c, r4, mainFn, runFn)
+	checkFeatureSetValidated(c, prog)
 	return nil
 }
 
@@ -840,6 +841,88 @@ func failureBlocks(errv ssa.Value) []*ssa.BasicBlock {
 	return out
 }
 
+// checkFeatureSetValidated (R20.5): an unknown feature name is a configuration
+// error and has to be reported while the configuration is loaded, before the
+// target directory is touched. FeatureOptions.Build runs inside WriteSource,
+// i.e. after --clean, and fails for unknown names; that failure is unreachable
+// only if a FeatureSet can never hold an unvalidated name: every insert into a
+// FeatureSet happens in (*FeatureSet).Enable, after its membership test against
+// AllFeatures, and Enable returns the error.
+func checkFeatureSetValidated(c *core.Ctx, prog *core.Prog) {
+	r := c.NewRule("R20.5", "S1", "a FeatureSet is filled only through Enable, which rejects unknown names (config errors surface before the target directory is touched)", 2)
+	gp := prog.ByPath[pkgGen]
+	if gp == nil {
+		r.Undecided("load:gen", "-", "package gen not loaded")
+		return
+	}
+	isFS := func(t types.Type) bool {
+		_, n := core.NamedOf(t)
+		return n == "FeatureSet"
+	}
+	n := 0
+	for _, top := range core.PkgFuncs(prog.SSA, gp) {
+		for _, fn := range core.AllFuncs(top) {
+			for _, b := range fn.Blocks {
+				for _, in := range b.Instrs {
+					mu, ok := in.(*ssa.MapUpdate)
+					if !ok || !isFS(mu.Map.Type()) {
+						continue
+					}
+					n++
+					if core.FuncName(fn) != "(*ogen/gen.FeatureSet).Enable" {
+						r.Fail("featureset-insert:"+fnKeyFull(fn), c.Pos(mu.Pos()), fmt.Sprintf("%s inserts a name into a FeatureSet without going through Enable: an unknown feature in the config file is no longer reported when the config is loaded but only by FeatureOptions.Build inside WriteSource, after --clean has emptied the target directory", fn.Name()))
+						continue
+					}
+					// dominated by the membership test's success
+					okDom := false
+					for _, call := range core.Calls(fn) {
+						if !strings.HasPrefix(core.CalleeName(call.Common()), "slices.ContainsFunc") {
+							continue
+						}
+						cv, isCall := call.(*ssa.Call)
+						if !isCall {
+							continue
+						}
+						for _, eb := range core.EdgeBlocks(cv, true) {
+							if eb == b || eb.Dominates(b) {
+								okDom = true
+							}
+						}
+					}
+					if okDom {
+						r.Pass("Enable inserts only after the name was found in AllFeatures")
+					} else {
+						r.Fail("featureset-insert:Enable:unvalidated", c.Pos(mu.Pos()), "(*FeatureSet).Enable inserts a name that was not found in AllFeatures")
+					}
+				}
+			}
+		}
+	}
+	// the YAML decoder of the set must surface Enable's error
+	if um := prog.Func(pkgGen, "FeatureSet.UnmarshalYAML"); um == nil {
+		r.Undecided("anchor:UnmarshalYAML", "-", "(*gen.FeatureSet).UnmarshalYAML not found")
+	} else {
+		found := false
+		for _, call := range core.Calls(um) {
+			if core.CalleeName(call.Common()) == "(*ogen/gen.FeatureSet).Enable" {
+				found = true
+				cv, _ := call.(*ssa.Call)
+				if cv != nil && len(failureBlocks(cv)) > 0 {
+					r.Pass("FeatureSet.UnmarshalYAML enables each name and tests the error")
+				} else {
+					r.Fail("featureset:unmarshal-ignores-error", c.Pos(call.Pos()), "FeatureSet.UnmarshalYAML ignores the error of Enable")
+				}
+			}
+		}
+		if !found {
+			r.Fail("featureset:unmarshal-no-enable", c.Pos(um.Pos()), "FeatureSet.UnmarshalYAML does not call Enable: names from the config file are not validated when the config is loaded")
+		}
+	}
+	if n == 0 {
+		r.Undecided("featureset:no-insert", "-", "no insert into a FeatureSet found")
+	}
+}
+
 func checkMainExit(c *core.Ctx, r *core.Rule, mainFn, runFn *ssa.Function) {
 	var runCall *ssa.Call
 	for _, call := range core.Calls(mainFn) {
@@ -865,8 +948,33 @@ func checkMainExit(c *core.Ctx, r *core.Rule, mainFn, runFn *ssa.Function) {
 				}
 			}
 		}
-		// every path from the failure block must reach os.Exit: the failure
-		// block's successors must not return normally without Exit.
+		// every path from the failure block must pass a block that calls os.Exit(non-zero) before main returns
+		if ok {
+			exits := map[*ssa.BasicBlock]bool{}
+			for _, b := range mainFn.Blocks {
+				for _, in := range b.Instrs {
+					if call, isCall := in.(*ssa.Call); isCall && core.IsCallTo(call.Common(), "os", "Exit") {
+						if code, isC := core.ConstInt(call.Common().Args[0]); isC && code != 0 {
+							exits[b] = true
+						}
+					}
+				}
+			}
+			seen := map[*ssa.BasicBlock]bool{}
+			work := []*ssa.BasicBlock{fb}
+			for len(work) > 0 {
+				b := work[len(work)-1]
+				work = work[:len(work)-1]
+				if seen[b] || exits[b] {
+					continue
+				}
+				seen[b] = true
+				if _, isRet := b.Instrs[len(b.Instrs)-1].(*ssa.Return); isRet {
+					ok = false
+				}
+				work = append(work, b.Succs...)
+			}
+		}
 		if ok {
 			for _, b := range mainFn.Blocks {
 				if fb.Dominates(b) {
